@@ -138,6 +138,15 @@ impl Environment {
         self.find(v).map(|k| k.get_type())
     }
 
+    /// The type of the unit `v`, also where a parameter or local variable of the same
+    /// name shadows it (`kilometer` still refers to the unit `meter` then)
+    pub(crate) fn get_unit_type(&self, v: &str) -> Option<TypeScheme> {
+        self.identifiers
+            .get_all(v)
+            .find(|k| matches!(k, IdentifierKind::Normal(_, _, true)))
+            .map(|k| k.get_type())
+    }
+
     pub(crate) fn iter_identifiers(&self) -> impl Iterator<Item = &Identifier> {
         self.identifiers.keys()
     }
